@@ -152,5 +152,6 @@ def r2_operators(ctx):
 
 
 def run(ctx):
+    ctx.guard("C12.K17", "constructor fidelity", lambda: __import__("ctor").check_for(ctx, "C12", 13))
     ctx.guard("C12.R1", "driver", lambda: r1_driver(ctx))
     ctx.guard("C12.R2", "operators", lambda: r2_operators(ctx))
